@@ -72,6 +72,27 @@ def gen_script(rng, overlap):
     return sc, handler
 
 
+def overlapped_close_scripts(rng, n):
+    """two close requests overlapping while a slow handler keeps the step busy with its closing notifications"""
+    out = []
+    stages = [[], ['deploy'], ['deploy', 'enabling'], ['deploy', 'enabling', 'starting']]
+    for k in range(n):
+        pre = stages[k % len(stages)]
+        handler = rng.random() < 0.7
+        acts = [{'op': 'provide', 'stage': st, 'lane': 0, **({'val': True} if st == 'enabling' else {})} for st in pre]
+        acts.append({'op': 'sleep', 'ms': rng.choice([2, 6]), 'lane': 0})
+        first, second = rng.choice([('close', 'close'), ('forceclose', 'close'), ('close', 'forceclose'), ('forceclose', 'forceclose')])
+        acts.append({'op': 'sleep', 'ms': 12, 'lane': 1})
+        acts.append({'op': first, 'id': 'c1', 'lane': 1})
+        acts.append({'op': 'sleep', 'ms': 12 + rng.choice([2, 5, 9]), 'lane': 2})
+        acts.append({'op': second, 'id': 'c2', 'lane': 2})
+        script = {'a': {'deploy': {}, 'exec': {'out': 'success', 'wait_gate': 'res', 'on_cancel': rng.choice(['', 'ignore'])}}}
+        sc = {'pstep': 'work' if handler else 'nowork', 'src': 'a', 'script': script, 'actions': acts, 'overlap': True, 'timeout_ms': 20000,
+              'schedule': {'stalls': [{'point': 'ev:Notif', 'nth': 0, 'ms': rng.choice([6, 10])}]}}
+        out.append((sc, handler))
+    return out
+
+
 def run_step(binary, sc, work, name):
     d = os.path.join(work, name)
     os.makedirs(d, exist_ok=True)
@@ -166,7 +187,7 @@ def run(ctx):
     rng = random.Random(ctx.seed * 104729 + 12)
     binary = ctx.binary()
     n = 40 if ctx.quick else 600
-    scs = [gen_script(rng, overlap=(i % 3 == 2)) for i in range(n)]
+    scs = [gen_script(rng, overlap=(i % 3 == 2)) for i in range(n)] + overlapped_close_scripts(rng, 8 if ctx.quick else 80)
     with cf.ThreadPoolExecutor(max_workers=max(2, vlib.NCPU - 2)) as ex:
         results = list(ex.map(lambda a: run_step(binary, a[1][0], ctx.work, 'st%04d' % a[0]), enumerate(scs)))
     cases = []
